@@ -30,8 +30,11 @@ def base_env():
 
 
 def run(cmd, cwd=None, env=None, timeout=None, input=None, check=False):
-    p = subprocess.run(cmd, cwd=cwd, env=env or base_env(), timeout=timeout, input=input,
-                       stdout=subprocess.PIPE, stderr=subprocess.PIPE, text=True)
+    try:
+        p = subprocess.run(cmd, cwd=cwd, env=env or base_env(), timeout=timeout, input=input,
+                           stdout=subprocess.PIPE, stderr=subprocess.PIPE, text=True)
+    except subprocess.TimeoutExpired:
+        raise MachineryError("command timed out after %ss: %s" % (timeout, " ".join(cmd)))
     if check and p.returncode != 0:
         raise MachineryError("command failed (%d): %s\n%s\n%s" % (
             p.returncode, " ".join(cmd), p.stdout[-3000:], p.stderr[-6000:]))
